@@ -7,6 +7,8 @@ CONSTANTS MaxOrd = 1
  Faults = 1
  Fails = 1
  MaxFaultPos = 3
+ QueueDriven = FALSE
+ ClaimCounts = {0}
  InitMode = "empty"
 SPECIFICATION Spec
 VIEW View
